@@ -80,7 +80,8 @@ pub struct SchedState {
 
 pub struct Sched {
   m: Mutex<SchedState>,
-  cv: Condvar,
+  /// one condition variable per simulated thread: only the chosen one is woken
+  cvs: Vec<Condvar>,
 }
 
 /// Payload used to unwind threads of an aborted run.
@@ -118,7 +119,7 @@ impl Sched {
         trace: Vec::new(),
         yields_by_kind: HashMap::new(),
       }),
-      cv: Condvar::new(),
+      cvs: (0..nthreads.max(1)).map(|_| Condvar::new()).collect(),
     })
   }
 
@@ -215,6 +216,18 @@ impl Sched {
     s.current = Some(next);
   }
 
+  /// Wake whoever holds the baton now (everybody when the run was aborted).
+  fn wake(&self, g: &SchedState) {
+    match (g.aborted.is_some(), g.current) {
+      (false, Some(t)) => self.cvs[t].notify_one(),
+      _ => {
+        for cv in &self.cvs {
+          cv.notify_all();
+        }
+      }
+    }
+  }
+
   fn wait_for_baton<'a>(&'a self, mut g: std::sync::MutexGuard<'a, SchedState>, me: usize) -> std::sync::MutexGuard<'a, SchedState> {
     loop {
       if g.aborted.is_some() {
@@ -229,7 +242,7 @@ impl Sched {
       if g.current == Some(me) {
         return g;
       }
-      g = self.cv.wait(g).unwrap_or_else(|e| e.into_inner());
+      g = self.cvs[me].wait(g).unwrap_or_else(|e| e.into_inner());
     }
   }
 
@@ -256,16 +269,16 @@ impl Sched {
       Self::pick(&mut g, None);
     }
     TID.with(|t| t.set(None));
+    self.wake(&g);
     drop(g);
-    self.cv.notify_all();
   }
 
   /// Hand the first baton out (called by the harness after spawning).
   pub fn start(&self) {
     let mut g = self.m.lock().unwrap_or_else(|e| e.into_inner());
     Self::pick(&mut g, None);
+    self.wake(&g);
     drop(g);
-    self.cv.notify_all();
   }
 
   pub fn yield_now(&self, kind: &'static str) {
@@ -278,7 +291,7 @@ impl Sched {
     *g.yields_by_kind.entry(kind).or_insert(0) += 1;
     Self::pick(&mut g, Some(me));
     if g.current != Some(me) {
-      self.cv.notify_all();
+      self.wake(&g);
     }
     let _g = self.wait_for_baton(g, me);
   }
@@ -324,7 +337,7 @@ impl SchedHooks for Hooks {
       g.lock_waits += 1;
       g.threads[me] = TStatus::Waiting { lock, kind };
       Sched::pick(&mut g, Some(me));
-      sched.cv.notify_all();
+      sched.wake(&g);
       g = sched.wait_for_baton(g, me);
     }
   }
